@@ -4,7 +4,8 @@
 
    TRUSTED PREMISE (not modelled: etree.tostring, the "\n"-only indentation of _write_xml_string_to_file, UTF-8, the
    libxml2 parser):  for every tree x whose tags, attribute names, attribute values and texts consist of code points
-   in `char_ok` (XML 1.0 Char minus Unicode category Cc, plus TAB), iterparse over the file the writer produces for x
+   in `char_ok` (XML 1.0 Char minus Unicode category Cc, plus TAB and LINE FEED -- a line feed inside a text is written
+   as the character reference &#10; since the fix "write line feeds inside texts as character references"), iterparse over the file the writer produces for x
    delivers exactly `events x`: the same elements in document order, attributes in the order they were set, text
    unchanged except that an empty text is reported as None (`node_text`), and whitespace-only text only in elements
    that have children (never inspected by the readers).  The correspondence run of harness/vh/props/c10.py is what
@@ -19,7 +20,7 @@ Local Open Scope N_scope.
 
 (* ---- domain of the trusted premise ------------------------------------------------------------------- *)
 Definition char_ok (c : N) : bool :=
-  (c =? 9) || ((32 <=? c) && (c <=? 126)) || ((160 <=? c) && (c <=? 55295))
+  (c =? 9) || (c =? 10) || ((32 <=? c) && (c <=? 126)) || ((160 <=? c) && (c <=? 55295))
   || ((57344 <=? c) && (c <=? 65533)) || ((65536 <=? c) && (c <=? 1114111)).
 Definition text_ok (s : text) : bool := forallb char_ok s.
 Fixpoint tree_ok (x : xml) : bool :=
